@@ -354,7 +354,8 @@ class AsyncClient(base_client.BaseClient):
                     str(e))
                 return False
             try:
-                p = (await ws.receive()).data
+                p = (await asyncio.wait_for(
+                    ws.receive(), timeout=self.request_timeout)).data
             except Exception as e:  # pragma: no cover
                 self.logger.warning(
                     'WebSocket upgrade failed: unexpected recv exception: %s',
@@ -377,7 +378,8 @@ class AsyncClient(base_client.BaseClient):
             self.logger.info('WebSocket upgrade was successful')
         else:
             try:
-                p = (await ws.receive()).data
+                p = (await asyncio.wait_for(
+                    ws.receive(), timeout=self.request_timeout)).data
             except Exception as e:  # pragma: no cover
                 raise exceptions.ConnectionError(
                     'Unexpected recv exception: ' + str(e))
